@@ -330,7 +330,8 @@ def gen_case(rng, maxlen, stay_in_domain=0.85):
             free = [x for x in NAMES if x not in cur]
             nm = rng.choice(free) if (free and rng.random() < 0.8) else rng.choice(cur)
             ty = tys.get(nm) or rng.choice("irs")
-            ln = len(spec.rows) if rng.random() < 0.9 else len(spec.rows) + 1
+            # (pandas lets a column of ANY length be assigned to a frame without rows; that corner is not modelled and not generated)
+            ln = len(spec.rows) if (rng.random() < 0.9 or not spec.rows) else len(spec.rows) + rng.choice([-1, 1])
             op = ("set", nm, [gen_cell(rng, ty) for _ in range(ln)])
             if len(cur) >= 6 and nm not in cur:
                 continue
